@@ -63,6 +63,21 @@ PROPS = {
         "level_text": "Exploration by generated histories. After every repository synchronisation the products of each class directory must carry a single issuing key that also publishes a manifest there; at checkpoints the products are under the current key, payloads equal the configuration and the tree is RP-valid; every call is wrapped so a panic or would-be process exit is attributed to the operation; at the end every open roll must finish in the single-active-key state after activation and synchronisation. Interleavings are sampled, not enumerated.",
         "level_note": "Trusted base: rpki decoding, the pump, the intent model. Commands krill refuses during a roll are accepted as refusals. Rolls of a CA whose parent relation was removed on purpose are not required to finish.",
     },
+    "C13": {
+        "level": "exploration",
+        "cases": {"quick": 320, "thorough": 6400},
+        "rule": "cases = generated (role = subset of the 22 permissions drawn uniformly / nearly full / nearly empty, with or without scoping to a subset of two CAs; testbed mode on/off; 20-60 (thorough 40-160) requests) against the real daemon. "
+        "Each request picks one of the 114 routes of /verif/routes.json (every method of every route of the HTTP interface), fills the path with an existing CA, the other CA or an unknown one, sends a valid-looking or an unusable body, and comes from a caller with no credential, "
+        "a wrong token, the admin token, the session token of a configured user with the generated role, or the socket peer mapped to the generated role; distinct by hash of the case JSON; non-trivial iff the generated role was refused at least once and served at least once",
+        "floors": {"__nontrivial__": 0.80, "refused_insufficient_role": 0.80, "refused_state_changing_request": 0.60, "served_role": 0.80, "served_with_per_ca_grant": 0.25, "refused_unauthenticated": 0.70, "public_route": 0.70, "listing_checked": 0.05},
+        "assumptions": ["the permission each operation requires is taken from the committed table /verif/routes.json (read off the dispatch code at the pinned commit) after it passed semantic lint rules that do not depend on krill: no state-changing method rides on a read permission, CA routes are checked against the addressed CA, "
+                        "every API route has a permission (the two listing routes filter instead), permissions belong to the family of the route",
+                        "a request counts as served unless it is answered 401 or 403; 'no effect' is read through an administrator's view (CA list, command counts, CA details, publishers)",
+                        "state-changing requests that are served may change the state; the two CAs are restored by the administrator afterwards"],
+        "technique": "table-driven property-based testing of the running daemon: generated roles over the permission lattice and generated callers, with the route table plus a re-implementation of the role evaluation (specific CA, else blanket, else none) as oracle; refused requests are checked for absence of effect, listings for showing exactly the readable CAs",
+        "level_text": "Exploration: every route and method is in the table and drawn with equal weight; roles sample the lattice. Sampling, not proof.",
+        "level_note": "Trusted base: the committed route table (linted) and the harness HTTP client.",
+    },
     "C14": {
         "level": "exploration",
         "cases": {"quick": 1200, "thorough": 24000},
